@@ -36,7 +36,8 @@ type Shadow struct {
 	ro     *appstate.AppState
 	hdr    *types.Header
 	store  map[common.Address]map[string]*shVal
-	bal    map[common.Address]*big.Int
+	adj    map[common.Address]*big.Int // escrow: what the envelope moved before the run (not a request)
+	bal    map[common.Address]*big.Int // requested balances
 	stake  map[common.Address]*big.Int
 	Events int
 	Burnt  *big.Int
@@ -45,7 +46,7 @@ type Shadow struct {
 }
 
 func NewShadow(ro *appstate.AppState, hdr *types.Header) *Shadow {
-	return &Shadow{ro: ro, hdr: hdr, store: map[common.Address]map[string]*shVal{}, bal: map[common.Address]*big.Int{},
+	return &Shadow{ro: ro, hdr: hdr, store: map[common.Address]map[string]*shVal{}, bal: map[common.Address]*big.Int{}, adj: map[common.Address]*big.Int{},
 		stake: map[common.Address]*big.Int{}, Burnt: new(big.Int), Moved: new(big.Int)}
 }
 
@@ -53,12 +54,17 @@ func (s *Shadow) getBalance(a common.Address) *big.Int {
 	if b, ok := s.bal[a]; ok {
 		return b
 	}
-	return new(big.Int).Set(s.ro.State.GetBalance(a))
+	b := new(big.Int).Set(s.ro.State.GetBalance(a))
+	if d, ok := s.adj[a]; ok {
+		b.Add(b, d)
+	}
+	return b
 }
 
-// Credit adds the escrowed pay amount the way the transaction envelope does before the run.
-func (s *Shadow) Credit(a common.Address, amount *big.Int) {
-	s.bal[a] = new(big.Int).Add(s.getBalance(a), amount)
+// Escrow moves the pay amount the way the transaction envelope does before the run.
+func (s *Shadow) Escrow(from, to common.Address, amount *big.Int) {
+	s.adj[from] = new(big.Int).Neg(amount)
+	s.adj[to] = new(big.Int).Set(amount)
 }
 
 func (s *Shadow) BlockNumber() uint64   { return s.hdr.Height() }
@@ -207,6 +213,7 @@ type ShadowResult struct {
 	Moved  *big.Int
 	Burnt  *big.Int
 	Dest   *common.Address // stake destination of a termination
+	Req    map[common.Address]*big.Int // requested balances
 }
 
 // RunShadow executes the embedded contract code of tx against the probe.  ro must be the committed
@@ -239,9 +246,7 @@ func RunShadow(ro *appstate.AppState, hdr *types.Header, tx *types.Transaction, 
 		ctx = env.NewCallContextImpl(tx, nil, hash)
 		target = *tx.To
 		if tx.Type == types.CallContractTx && tx.AmountOrZero().Sign() > 0 {
-			sh.Credit(target, tx.AmountOrZero())
-			// the sender's balance is not visible to embedded contracts except through Balance(addr)
-			sh.bal[sender] = new(big.Int).Sub(sh.getBalance(sender), tx.AmountOrZero())
+			sh.Escrow(sender, target, tx.AmountOrZero())
 		}
 	default:
 		return
@@ -319,5 +324,6 @@ func RunShadow(ro *appstate.AppState, hdr *types.Header, tx *types.Transaction, 
 	}
 	sort.Slice(res.Writes, func(i, j int) bool { return res.Writes[i].K < res.Writes[j].K })
 	res.Moved, res.Burnt = sh.Moved, sh.Burnt
+	res.Req = sh.bal
 	return
 }
